@@ -4,6 +4,7 @@ import (
 	"crypto/rand"
 	"errors"
 	"net/netip"
+	"sync"
 	"time"
 )
 
@@ -23,6 +24,9 @@ import (
 //   retry.go validateToken:  `abs(now.Sub(when))` -> `now.Sub(when)`                                        VerifC31_issue_validate
 //   stateless_reset.go:      `defer g.mac.Reset()` -> no-op                                                 VerifC31_reset_token
 //   retry.go parseRetryPacket: pseudo-packet built with an empty original DCID                              VerifC31_retry_packet
+//   retry.go validateToken: nonce split derived from len(dstConnID) instead of maxConnIDLen (seed C31-A)     VerifC31_issue_validate_lens
+//   stateless_reset.go: the two defers swapped, Reset after Unlock (seed C31-B)                             VerifC31_reset_token (lock
+//       discipline, replays natively) + VerifC31_reset_concurrent (symbolic scheduler: wrong token on an interleaving)
 //
 // Engine caveat: the harness that first needs package time (VerifC31_issue_validate) must run before the one that
 // turns *c31mac into a hash.Hash (VerifC31_reset_token): x/tools go/ssa canonicalises signatures ignoring receivers,
@@ -32,8 +36,10 @@ import (
 func init() {
 	vfRegister("VerifC31_issue_validate", VerifC31_issue_validate)
 	vfRegister("VerifC31_ad", VerifC31_ad)
+	vfRegister("VerifC31_issue_validate_lens", VerifC31_issue_validate_lens)
 	vfRegister("VerifC31_retry_packet", VerifC31_retry_packet)
 	vfRegister("VerifC31_reset_token", VerifC31_reset_token)
+	vfRegister("VerifC31_reset_concurrent", VerifC31_reset_concurrent)
 }
 
 func c31eq(a, b []byte) bool {
@@ -234,6 +240,56 @@ func VerifC31_issue_validate() {
 	vfReach("end")
 }
 
+// The token is bound to the EXACT destination connection ID (the 20-byte Source Connection ID of our Retry packet)
+// and is accepted only UNMODIFIED: here the presented destination connection ID has any length 0..25 and the
+// presented token any length from 0 bytes to 25 bytes more than what was issued (both fully symbolic), so that every
+// way of moving bytes between "connection ID", "nonce tail" and "ciphertext" is covered, including connection IDs
+// longer than the 24-byte nonce. The issued context has one shape (1-byte source connection ID, IPv4, original DCID
+// of 0..1 bytes; thorough also 12-byte/IPv6 and 0..2) and the presented address/port/source connection ID are
+// independent symbolic values of the same shape (the shapes are varied by VerifC31_issue_validate).
+func VerifC31_issue_validate_lens() {
+	c31setRand()
+	rs := retryState{aead: c31aead{nonceSize: 24, tab: new([]c31sealed)}}
+	issue := time.Unix(1700000000, 0)
+	var a c31ctx
+	if vfTier() > 0 {
+		a = c31context("issued", []int{1, 12})
+	} else {
+		a = c31ctx{src: vfBytes("issued.srcConnID", 1), ip: vfBytes("issued.ip4", 4), port: vfU16("issued.port")}
+	}
+	odcid := vfBytes("origDstConnID", vfLen("odcidlen", 0, 1+vfTier()))
+	token, newDst, err := rs.makeToken(issue, a.src, odcid, a.addrPort())
+	vfAssert(err == nil, "makeToken succeeds")
+	tok0, dst0 := c31clone(token), c31clone(newDst)
+
+	b := c31ctx{src: vfBytes("presented.srcConnID", len(a.src)), v6: a.v6, ip: vfBytes("presented.ip", len(a.ip)), port: vfU16("presented.port")}
+	dst := vfBytes("presented.dstConnID", vfLen("dstlen", 0, maxConnIDLen+5))
+	tok := vfBytes("presented.token", vfLen("tokenlen", 0, len(token)+maxConnIDLen+5))
+	now := vfTime("presented.now")
+	vfAssume(vfAnd(now.UnixNano() >= 1<<50, now.UnixNano() < 1<<61))
+
+	got, ok := rs.validateToken(now, tok, b.src, dst, b.addrPort())
+
+	d := now.Sub(issue)
+	inTime := vfAnd(d <= retryTokenValidityPeriod, d >= -retryTokenValidityPeriod)
+	want := vfAnd(vfAnd(a.same(b), c31eq(dst, dst0)), vfAnd(c31eq(tok, tok0), inTime))
+	vfAssert(ok == want, "accepted iff same address, port, connection IDs (exact length), unmodified token, within 5 s")
+	if ok {
+		vfAssert(c31eq(got, odcid), "returns the original destination connection ID")
+		vfReach("accepted")
+	} else {
+		vfAssert(got == nil, "no connection ID when rejected")
+		if len(dst) != maxConnIDLen {
+			vfReach("rejected: other connection ID length")
+		}
+		if len(dst)+len(tok) == len(dst0)+len(tok0) && len(dst) < maxConnIDLen {
+			vfReach("rejected: bytes moved from the connection ID into the token")
+		}
+	}
+	vfObserveBool("ok", ok)
+	vfReach("end")
+}
+
 // Retry packets (RFC 9001 §5.8): the integrity tag binds the packet to the original destination connection ID.
 func VerifC31_retry_packet() {
 	saved := retryAEAD
@@ -281,34 +337,70 @@ func VerifC31_retry_packet() {
 
 type c31macEntry struct{ in, out []byte }
 
+// c31mac is an ideal MAC with the (non-)concurrency contract of hash.Hash: one shared buffer, no internal locking.
+// Every method is a scheduling point of the symbolic scheduler before its effect on the shared state (so between any
+// two accesses of one goroutine another goroutine's accesses can be interleaved, as with a real hash.Hash).
+// If mu is set, every access additionally checks the lock discipline the generator documents ("The hash.Hash
+// interface is not concurrency safe, so we need a mutex here"): the mutex must be HELD during the access.
 type c31mac struct {
 	buf   []byte
 	tab   []c31macEntry
 	calls [][]byte // the input of every Sum, in order
+	mu    *sync.Mutex
 }
 
-func (m *c31mac) Write(p []byte) (int, error) { m.buf = append(m.buf, p...); return len(p), nil }
-func (m *c31mac) Reset()                      { m.buf = nil }
-func (m *c31mac) Size() int                   { return 32 }
-func (m *c31mac) BlockSize() int              { return 64 }
-func (m *c31mac) Sum(b []byte) []byte {
-	in := c31clone(m.buf)
-	m.calls = append(m.calls, in)
+func (m *c31mac) access(what string) {
+	if m.mu != nil {
+		free := m.mu.TryLock() // also a scheduling point
+		vfAssert(!free, "the shared MAC state is accessed only while the generator's mutex is held")
+		return
+	}
+	vfYield()
+}
+
+// f is the ideal keyed function itself: one fresh 32-byte value per distinct input, the same value for the same input.
+func (m *c31mac) f(in []byte) []byte {
 	for _, e := range m.tab {
 		if c31eq(e.in, in) {
-			return append(b, e.out...)
+			return e.out
 		}
 	}
 	out := vfBytes("mac.out", 32)
-	m.tab = append(m.tab, c31macEntry{in, out})
-	return append(b, out...)
+	m.tab = append(m.tab, c31macEntry{c31clone(in), out})
+	return out
+}
+
+func (m *c31mac) Write(p []byte) (int, error) {
+	m.access("Write")
+	m.buf = append(m.buf, p...)
+	return len(p), nil
+}
+func (m *c31mac) Reset()         { m.access("Reset"); m.buf = nil }
+func (m *c31mac) Size() int      { return 32 }
+func (m *c31mac) BlockSize() int { return 64 }
+func (m *c31mac) Sum(b []byte) []byte {
+	m.access("Sum")
+	in := c31clone(m.buf)
+	m.calls = append(m.calls, in)
+	return append(b, m.f(in)...)
+}
+
+// c31generator: with discipline the MAC stub asserts the lock discipline at every access (sequential harness: the
+// violation is then independent of the schedule and replays natively); without, the accesses are plain scheduling
+// points and the harness judges the OUTCOME of every interleaving.
+func c31generator(discipline bool) (*statelessResetTokenGenerator, *c31mac) {
+	mac := &c31mac{}
+	g := &statelessResetTokenGenerator{canReset: true, mac: mac}
+	if discipline {
+		mac.mu = &g.mu
+	}
+	return g, mac
 }
 
 // Stateless-reset tokens: deterministic function of the connection ID for a given key (MAC), also across
 // interleaved requests for other connection IDs (the deferred Reset).
 func VerifC31_reset_token() {
-	mac := &c31mac{}
-	g := &statelessResetTokenGenerator{canReset: true, mac: mac}
+	g, mac := c31generator(true)
 	cid1 := vfBytes("cid1", vfLen("cid1len", 0, 3))
 	cid2 := vfBytes("cid2", vfLen("cid2len", 0, 3))
 	t1 := g.tokenForConnID(cid1)
@@ -324,6 +416,58 @@ func VerifC31_reset_token() {
 	}
 	// the generator can be used again after the mutex was released
 	vfAssert(!vfBlocks(func() { g.tokenForConnID(cid2) }), "mutex released")
+	vfObserve("macs", uint64(len(mac.tab)))
+	vfReach("end")
+}
+
+// The same under CONCURRENT use of one generator (several Conns of an Endpoint issue NEW_CONNECTION_ID tokens while
+// the endpoint's receive loop computes stateless resets): 2 goroutines each request 1 token (thorough: the first one 1 or 2, one more preemption) for
+// their own symbolic connection IDs under the symbolic scheduler; every scheduling point of the mutex and of the
+// MAC stub is a possible context switch (preemption bound of the check json). Every token must be the ideal keyed
+// function of exactly its connection ID, whatever the interleaving; the generator must not deadlock.
+func VerifC31_reset_concurrent() {
+	vfNoDeadlock()
+	g, mac := c31generator(false)
+	n := 2
+	type req struct {
+		cid []byte
+		tok statelessResetToken
+	}
+	reqs := make([][]req, n)
+	total := 0
+	for i := range reqs {
+		k := 1
+		if i == 0 && vfTier() > 0 {
+			k = 1 + vfChoice("twice", 2) // thorough: the first goroutine asks once or twice (Reset of its own earlier request)
+		}
+		for j := 0; j < k; j++ {
+			reqs[i] = append(reqs[i], req{cid: vfBytes("cid", vfLen("cidlen", 0, 1))})
+			total++
+		}
+	}
+	done := make(chan int, n)
+	for i := range reqs {
+		mine := reqs[i]
+		vfGo(func() {
+			for j := range mine {
+				mine[j].tok = g.tokenForConnID(mine[j].cid)
+			}
+			done <- 1
+		})
+	}
+	for range reqs {
+		<-done
+	}
+	vfAssert(len(mac.calls) == total, "one MAC computation per token")
+	for i := range reqs {
+		for _, r := range reqs[i] {
+			want := mac.f(r.cid)
+			vfAssert(c31eq(r.tok[:], want[:statelessResetTokenLen]), "concurrent use: the token is the keyed function of exactly its connection ID")
+		}
+	}
+	// and a sequential request afterwards agrees (nothing was left in the MAC state)
+	again := g.tokenForConnID(reqs[0][0].cid)
+	vfAssert(again == reqs[0][0].tok, "same connection ID, same token, after concurrent use")
 	vfObserve("macs", uint64(len(mac.tab)))
 	vfReach("end")
 }
